@@ -718,7 +718,9 @@ func (idx *indexer) indexBulkSince(txID uint64, restarting bool) error {
 			indexableEntries++
 			txIndexedEntries++
 
-			if idx.spec.InjectiveMapping && txID > 1 {
+			currTxID := txID + uint64(i)
+
+			if idx.spec.InjectiveMapping && currTxID > 1 {
 				// wait for source indexer to be up to date
 				sourceIndexer, err := idx.store.getIndexerFor(sourceKey)
 				if errors.Is(err, ErrIndexNotFound) {
@@ -727,13 +729,13 @@ func (idx *indexer) indexBulkSince(txID uint64, restarting bool) error {
 					return err
 				}
 
-				err = sourceIndexer.WaitForIndexingUpto(context.Background(), txID-1)
+				err = sourceIndexer.WaitForIndexingUpto(context.Background(), currTxID-1)
 				if err != nil {
 					return err
 				}
 
 				// the previous entry as of txID must be deleted from the target index
-				_, prevTxID, _, err := sourceIndexer.index.GetBetween(sourceKey, 1, txID-1)
+				_, prevTxID, _, err := sourceIndexer.index.GetBetween(sourceKey, 1, currTxID-1)
 				if err == nil {
 					prevEntry, prevTxHdr, err := idx.store.ReadTxEntry(prevTxID, e.key(), false)
 					if err != nil {
